@@ -13,7 +13,8 @@ REL=""
 grep -q -- "--release" seed/meta.json 2>/dev/null && REL="--release"
 git checkout -q -- .        # source change away (untracked demo + seed stay); no `git stash`: it is shared between worktrees
 git apply --check seed/patch.diff && echo "patch applies: yes" > "$OUT/confirm.log" || echo "patch applies: NO" > "$OUT/confirm.log"
-# without the change: demo must pass
+# without the change: demo must pass (generated tables of a patched build must not be reused)
+rm -rf "$WT/target/debug/build/chess-"* "$WT/target/release/build/chess-"* 2>/dev/null
 cargo test $REL --offline --test "$(basename "$DEMO" .rs)" > "$OUT/demo_without.log" 2>&1
 W=$(grep -E "^test result" "$OUT/demo_without.log" | tail -1)
 echo "demo without patch: $W" >> "$OUT/confirm.log"
